@@ -9,6 +9,7 @@ MULTI_MODULE = True
 # failure name -> statements executed with a == 1 (a is the int parameter of the innermost link)
 FAILS = {
     "assert": ["assert a == 0"],
+    "assert_unicode": ['if "Zoë é" != "e" { assert a == 0 }'],
     "get_nil": ["fo: int? = nil", "gv = get fo"],
     "index_hi": ["fx: [int...] = [1, 2]", "gv = fx[a + 1]"],
     "index_neg": ["fx: [int...] = [1, 2]", "fi = 0 - a", "gv = fx[fi]"],
@@ -205,10 +206,11 @@ def render(spec):
                 em.indent -= 2
                 em.code("\t}")
                 em.code("}")
-            if inner and fail == "assert":
+            if inner and fail in ("assert", "assert_unicode"):
                 for k in range(start, len(em.lines)):
-                    if em.lines[k].strip().startswith("assert "):
-                        pos["assert"] = (fname + ".ms", k + 1, len(em.lines[k]) - len(em.lines[k].lstrip("\t")) + 1)
+                    if "assert a == 0" in em.lines[k]:
+                        # column counted in characters (tabs and non-ASCII letters are one column each)
+                        pos["assert"] = (fname + ".ms", k + 1, em.lines[k].index("assert a == 0") + 1)
 
     files = {}
     # ---- lib.ms
@@ -241,10 +243,10 @@ def render(spec):
         start = len(em.lines)
         for st in FAILS[fail]:
             em.code(st)
-        if fail == "assert":
+        if fail in ("assert", "assert_unicode"):
             for k in range(start, len(em.lines)):
-                if em.lines[k].strip().startswith("assert "):
-                    pos["assert"] = (root_file + ".ms", k + 1, 1)
+                if "assert a == 0" in em.lines[k]:
+                    pos["assert"] = (root_file + ".ms", k + 1, em.lines[k].index("assert a == 0") + 1)
     else:
         k0 = links[0]
         prefix = "lib." if (file_of(0) == "lib") else ""
